@@ -331,11 +331,15 @@ func c19RejectedParses(c *h.Ctx, n int) {
 	}
 	measure(50)
 	h0 := measure(50)
-	h1 := measure(6000)
+	h1 := measure(3000)
+	h2 := measure(3000)
 	c.Eval(6100 * len(bad))
-	c.Count("max:rejected-parse-heap-growth-bytes", int64(h1)-int64(h0))
-	if h1 > h0 && h1-h0 > 2<<20 {
-		c.Violate("repeat-differs", h.F("kind", "rejected-parses-accumulate"), fmt.Sprintf("%d rejected Parse calls left %d more bytes reachable than %d of them (heap after GC %d -> %d): a rejected parse is not independent of the ones before it", 6000*len(bad), h1-h0, 50*len(bad), h0, h1), h.Case{Kind: "rejected-parses"})
+	c.Count("max:rejected-parse-heap-growth-bytes", max(int64(h2)-int64(h0), 0))
+	// (two equal intervals, both of which must show the growth: one-off
+	// allocations of the runtime do not repeat)
+	const slack = 300 << 10
+	if h1 > h0+slack && h2 > h1+slack {
+		c.Violate("repeat-differs", h.F("kind", "rejected-parses-accumulate"), fmt.Sprintf("what rejected Parse calls leave reachable grows with their number: heap after GC %d bytes, %d after %d more rejected parses, %d after another %d - a rejected parse is not independent of the ones before it", h0, h1, 3000*len(bad), h2, 3000*len(bad)), h.Case{Kind: "rejected-parses"})
 	} else {
 		c.Held("repeat-differs")
 	}
